@@ -359,6 +359,31 @@ func runC13(c *core.Ctx) {
 	}
 	c.Floor("pure.copy", 8)
 
+	// ---- pure.reqbackend: `set req.backend = X` assigns in place into the object ctx.Backend points at. That object
+	// must belong to the request alone: a pointer taken from the backend table (the backend a director picked) makes
+	// the assignment rewrite the declared backend for every later reference to its name.
+	for _, fn := range prog.ModuleFuncs("interpreter") {
+		for _, b := range fn.Blocks {
+			for _, in := range b.Instrs {
+				st, ok := in.(*ssa.Store)
+				if !ok {
+					continue
+				}
+				f := core.FieldOf(st.Addr)
+				if f == nil || f.Name() != "Backend" || core.FieldOwner(st.Addr) != interpPkg+"/context.Context" {
+					continue
+				}
+				key := core.FnName(fn) + "|ctx.Backend ="
+				if core.IsNilConst(st.Val) || p.fresh(st.Val, map[ssa.Value]bool{}) {
+					c.Discharge("pure.reqbackend", key, in.Pos(), "a value of the request's own")
+				} else {
+					c.Report("pure.reqbackend", key, in.Pos(), fmt.Sprintf("%s makes ctx.Backend point at a value it did not create (%s): `set req.backend = …` assigns in place, so it overwrites the backend table entry the director picked and every later use of that backend's name", core.FnName(fn), describeValue(st.Val)))
+				}
+			}
+		}
+	}
+	c.Floor("pure.reqbackend", 2)
+
 	// ---- pure.frame
 	for _, name := range []string{"Interpreter.ProcessSubroutine", "Interpreter.ProcessFunctionSubroutine"} {
 		fn := prog.SSAFunc("interpreter", name)
